@@ -191,7 +191,8 @@ def fold_squarers(ck: Checker, rule: str, bench: NumBench | None = None):
         cases += [(24, 0, False), (33, 0, False), (48, 0, False)]
     total = 0
     for fname in ('add_square', 'add_square_pow2_m1'):
-        total += _instances(ck, bench, rule, SQ, fname, f'{fname} instantiated', f'{fname}: the returned bits decode to a^2', cases, spec, unary=True)
+        # (add_square splits its operand from 48 bits on: that width is instantiated in the quick tier as well)
+        total += _instances(ck, bench, rule, SQ, fname, f'{fname} instantiated', f'{fname}: the returned bits decode to a^2', cases + ([(48, 0, False)] if fname == 'add_square' and ck.tier == 'quick' else []), spec, unary=True)
     ck.notes['squarer_evaluations'] = total
     ck.assume('squarers are instantiated for the listed widths only; widths 12 and above are decided on a fixed sample of operand values')
     return bench
@@ -399,6 +400,11 @@ def fold_basis(ck: Checker, rule: str, bench: NumBench | None = None):
                 if not used <= allowed:
                     probs.append(f'{tag} creates {sorted(used - allowed)} gates, outside the requested basis')
                     continue
+                flat = [x[1] if isinstance(x, tuple) else x for x in (res if isinstance(res, list) else [])]
+                flat = [y for x in flat for y in (x if isinstance(x, list) else [x])]
+                if any(l not in c._gates for l in flat):
+                    probs.append(f'{tag}: the result names {[l for l in flat if l not in c._gates][0]!r}, which is no gate of the circuit')
+                    continue
                 # the result is still right in that basis (one operand value per instance is enough here: C07.NUM sweeps the values)
                 vals = [bool((0x5B >> i) & 1) for i in range(n)]
                 v = eval_all(c, dict(zip(names, vals)))
@@ -554,6 +560,10 @@ def fold_endian_rel(ck: Checker, rule: str, modules, public, exempt=(), bench: N
                         if r0 is None or r1 is None:
                             skipped = 'the result is not made of labels and label lists'
                             break
+                        ghost = [l for r_, c_ in ((r0, c0), (r1, c1)) for k_, x in r_ for l in (x if k_ == 'num' else [x]) if l not in c_._gates]
+                        if ghost:
+                            probs.append(f'{tag}: the result names {ghost[0]!r}, which is no gate of the circuit')
+                            continue
                         if [(k_, len(x) if k_ == 'num' else 1) for k_, x in r0] != [(k_, len(x) if k_ == 'num' else 1) for k_, x in r1]:
                             probs.append(f'{tag}: result shapes differ between the two endiannesses')
                             continue
